@@ -124,13 +124,78 @@ def gen_cases(tier, seed):
                 opts['kw']['max_itmd_dim'] = r.randint(2, 6)
             if opts['optimize'] and r.random() < 0.2:
                 opts['kw']['max_n_simultaneous_contracted'] = r.randint(2, 4)
+            allspin = None
+            dims = list(r.choice([(2, 2), (2, 3), (3, 2)]))
+            if not known and r.random() < 0.1 and order:
+                # every index alpha (or beta): spin-labelled targets (target_spin)
+                allspin = r.choice('ab')
+                if r.random() < 0.5:
+                    opts['optimize'] = False
+                    opts['kw'] = {}
+                allidx = {s_ for t_ in terms for s_ in ir.term_indices(t_)}
+                mp_ = {s_: s_ + ':' + allspin for s_ in allidx}
+                terms = [ir.rename_term(t_, mp_) for t_ in terms]
+                order = [mp_[s_] for s_ in order]
+                dims = [4, 4]
             cases.append({'id': f'C17-{tier[0]}{seed}-{k:05d}'
                                 + ('-kf' if known else ''),
                           'terms': terms, 'order': order, 'opts': opts,
-                          'mseed': r.randrange(1 << 30),
-                          'dims': list(r.choice([(2, 2), (2, 3), (3, 2)]))})
+                          'allspin': allspin,
+                          'mseed': r.randrange(1 << 30), 'dims': dims})
     finally:
         G.PREFS[:] = saved
+    # spin-labelled targets with the unoptimised scheme (target_spin has to reach
+    # both scheme builders)
+    r4 = rng_for(seed, 'C17-spin', tier)
+    for q in range(8 if tier == 'quick' else 40):
+        sp_ = r4.choice('ab')
+        S = lambda x_: x_ + ':' + sp_      # noqa: E731
+        shape = r4.choice(['mm', 'mm', 'outer', 'vec'])
+        if shape == 'mm':
+            objs = [{'t': 'non', 'name': 'x', 'up': [S('i'), S('k')]},
+                    {'t': 'non', 'name': 'y', 'up': [S('k'), S('j')]}]
+            order = [S('j'), S('i')]
+        elif shape == 'outer':
+            objs = [{'t': 'non', 'name': 'x', 'up': [S('i'), S('a')]},
+                    {'t': 'non', 'name': 'y', 'up': [S('j'), S('b')]}]
+            order = r4.choice([[S('i'), S('a'), S('j'), S('b')],
+                               [S('b'), S('j'), S('a'), S('i')]])
+        else:
+            objs = [{'t': 'non', 'name': 'z', 'up': [S('i')]},
+                    {'t': 'non', 'name': 'x', 'up': [S('i'), S('a')]}]
+            order = [S('i'), S('a')]
+        cases.append({'id': f'C17-{tier[0]}{seed}-spin{q:03d}',
+                      'terms': [{'pref': r4.choice(['1', '-2']), 'objs': objs}],
+                      'order': order, 'allspin': sp_,
+                      'opts': {'anti': False, 'split': None, 'bk': 0,
+                               'backend': r4.choice(['einsum', 'libtensor']),
+                               'optimize': q % 2 == 1, 'kw': {}},
+                      'mseed': r4.randrange(1 << 30), 'dims': [4, 4]})
+    # two permutations that map a term onto the same partner: x_ia x_jb - x_ja x_ib
+    r3 = rng_for(seed, 'C17-samepartner', tier)
+    for q in range(10 if tier == 'quick' else 60):
+        nm = r3.choice(['x', 'y'])
+        sg = r3.choice(['-1', '-1', '1'])
+        t0 = [{'t': 'non', 'name': nm, 'up': ['i', 'a']},
+              {'t': 'non', 'name': nm, 'up': ['j', 'b']}]
+        t1 = [{'t': 'non', 'name': nm, 'up': ['j', 'a']},
+              {'t': 'non', 'name': nm, 'up': ['i', 'b']}]
+        if r3.random() < 0.4:
+            extra = {'t': 'non', 'name': 'z', 'up': ['k', 'k']}
+            t0.append(dict(extra))
+            t1.append(dict(extra))
+        pf = r3.choice(['1', '2', '1/2'])
+        order = r3.choice([['i', 'j', 'a', 'b'], ['i', 'a', 'j', 'b'],
+                           ['a', 'b', 'i', 'j']])
+        cases.append({'id': f'C17-{tier[0]}{seed}-samepartner{q:03d}',
+                      'terms': [{'pref': pf, 'objs': t0},
+                                {'pref': f'({pf})*({sg})', 'objs': t1}],
+                      'order': order,
+                      'opts': {'anti': sg == '-1', 'split': r3.choice([None, 2]),
+                               'bk': 0,
+                               'backend': r3.choice(['einsum', 'libtensor']),
+                               'optimize': r3.random() < 0.7, 'kw': {}},
+                      'mseed': r3.randrange(1 << 30), 'dims': [2, 3]})
     # an inner contraction that already carries every target index (the rest of
     # the term are traces / scalars), non-canonical target orders
     r2 = rng_for(seed, 'C17-inner', tier)
@@ -211,17 +276,23 @@ def run_case(case, res):
     o = case['opts']
     order = [ir.mk_index(s) for s in case['order']]
     names = [ir.split_index(s)[0] for s in case['order']]
+    spin_of = {ir.split_index(s_)[0]: ir.split_index(s_)[1]
+               for t_ in case['terms'] for s_ in ir.term_indices(t_)}
     tstr = ''.join(names)
     if o['split']:
         tstr = ''.join(names[:o['split']]) + ',' + ''.join(names[o['split']:])
     kw = dict(target_indices=tstr, bra_ket_sym=o['bk'],
               antisymmetric_result_tensor=o['anti'], backend=o['backend'],
               optimize_contraction_scheme=o['optimize'], **o['kw'])
+    if case.get('allspin'):
+        kw['target_spin'] = case['allspin'] * len(names)
     tags = _tags(case)
     n_o, n_v = case['dims']
-    model = tm.Model(n_o, n_v, seed=case['mseed'])
+    model = tm.Model(n_o, n_v, seed=case['mseed'],
+                     spin=bool(case.get('allspin')))
     ev = tm.Evaluator(model)
     res.fingerprint = fp(_shape(case['terms']), len(order), o['backend'],
+                         case.get('allspin'),
                          o['optimize'], o['anti'], o['bk'], bool(o['split']),
                          sorted(o['kw'].items()))
     try:
@@ -236,7 +307,8 @@ def run_case(case, res):
         return
     has_delta = any(ob['t'] == 'delta' for t in case['terms']
                     for ob in t['objs'])
-    binder = codeinterp.Binder(model, catalogue_of(case['terms']), has_delta)
+    binder = codeinterp.Binder(model, catalogue_of(case['terms']), has_delta,
+                               spins=spin_of if case.get('allspin') else None)
     interp = codeinterp.Interpreter(binder, o['backend'], model.F)
     ref = ev.value(E.sympy, order)
     res.observed = {'input': str(E)[:300], 'kwargs': kw, 'code': code[:600]}
